@@ -134,6 +134,31 @@ pub proof fn lemma_step_fold(codes: Seq<i32>, accs: Seq<i32>)
         }
     }
 }
+
+// test (plain output), one step of the fold over the test cases (C06 / C16): acc = exit code so far, has_fail = this test
+// case has an unmet expectation. From the statement: a case without unmet expectation never changes the verdict so far;
+// one with an unmet expectation makes the run non-zero, 7 when nothing went wrong before.
+pub open spec fn test_step_ok(acc: i32, has_fail: bool, res: i32) -> bool {
+    &&& (!has_fail ==> res == acc)
+    &&& (has_fail ==> res != SUCCESS_STATUS_CODE)
+    &&& (has_fail && acc == SUCCESS_STATUS_CODE ==> res == TEST_FAILURE_STATUS_CODE)
+}
+// stands for HashMap<String, IndexSet<String>> (get_by_result): only "is there an entry for this key"
+#[verifier::external_body]
+pub struct ByResult { _p: u8 }
+#[verifier::external_body]
+pub struct ByResultVals { _p: u8 }
+impl ByResult {
+    pub uninterp spec fn has(&self, k: Seq<char>) -> bool;
+    #[verifier::external_body]
+    pub fn get(&self, k: &str) -> (r: Option<&ByResultVals>)
+        ensures r is Some == self.has(k@),
+    { unimplemented!() }
+    #[verifier::external_body]
+    pub fn contains_key(&self, k: &str) -> (r: bool)
+        ensures r == self.has(k@),
+    { unimplemented!() }
+}
 // ---- fn guard/src/commands/test.rs::get_exit_code
 fn get_exit_code(exit_code: i32, test_code: i32) -> (res: i32)
     requires
@@ -188,9 +213,7 @@ fn verif_fragment_execute_0(exit_code_in: i32, status: i32) -> (res: i32)
         validate_step_ok(exit_code_in, status, res),
 {
     let mut exit_code = exit_code_in;   // the accumulator of Validate::execute (`let mut exit_code = SUCCESS_STATUS_CODE;`)
-    if status == FAILURE_STATUS_CODE
-                                    || exit_code != FAILURE_STATUS_CODE
-                                {
+    if status != SUCCESS_STATUS_CODE {
                                     exit_code = status
                                 };
     exit_code
@@ -201,8 +224,19 @@ fn verif_fragment_execute_1(exit_code_in: i32, status: i32) -> (res: i32)
         validate_step_ok(exit_code_in, status, res),
 {
     let mut exit_code = exit_code_in;   // the accumulator of Validate::execute (`let mut exit_code = SUCCESS_STATUS_CODE;`)
-    if status == FAILURE_STATUS_CODE || exit_code != FAILURE_STATUS_CODE {
+    if status != SUCCESS_STATUS_CODE {
                             exit_code = status;
+                        };
+    exit_code
+}
+// ---- fn guard/src/commands/reporters/test/generic.rs::report fragment #0 (R16)
+fn verif_fragment_report_0(exit_code_in: i32, by_result: &ByResult) -> (res: i32)
+    ensures
+        test_step_ok(exit_code_in, by_result.has("FAIL"@), res),
+{
+    let mut exit_code = exit_code_in;   // the accumulator of GenericReporter::report
+    if by_result.get("FAIL").is_some() {
+                            exit_code = TEST_FAILURE_STATUS_CODE;
                         };
     exit_code
 }
